@@ -118,6 +118,8 @@ func decorate(r *rand.Rand, c *Case, calls []CallSpec, prefixOf map[string]strin
 			calls[i].Builtin = []string{"append", "panic"}[r.Intn(2)]
 		}
 	}
+	// one package in six: the user files carry the header of generated code (output of another generator)
+	c.GenHeader = r.Intn(6) == 0
 	c.OtherFile = []string{"0_other.go", "m_other.go", "z_other.go"}[r.Intn(3)]
 	if len(calls) >= 2 && r.Intn(2) == 0 {
 		cut := 1 + r.Intn(len(calls)-1)
@@ -1112,5 +1114,42 @@ func HandWrittenOverStaleC11() []*Case {
 			out = append(out, c)
 		}
 	}
+	return out
+}
+
+// FixedC12: two fixed groups (default-named twin, renamed package).
+//   nA  equal=eq, compare=eq_ with both plugins needing a helper for *Inner and the user calling the bare `eq`:
+//       equal's made-up names (eq_, …) must keep clear of the names compare registers and makes up, and vice
+//       versa (names registered by one plugin are reserved for all: cd6a573).
+//   nB  compare=order in a package that imports t/order/v2, whose package NAME is order: the helper compare makes up
+//       must keep clear of the import name as the type checker sees it, not of the last path element.
+func FixedC12() []*Case {
+	decl := "type Inner struct{ N int }\n\ntype Outer struct {\n\tName string\n\tIn   *Inner\n}"
+	typs := []TypeSpec{{Go: "*Outer", Wire: "(p (nm 0 Outer (st)))", Decl: decl}}
+	mk := func(group, id, rename string, ov map[string]string, calls func(pre map[string]string) []CallSpec, extra map[string]string) *Case {
+		pl := Plugins("derive", ov)
+		pre := map[string]string{}
+		for _, x := range pl {
+			pre[x.Name] = x.Prefix
+		}
+		return &Case{ID: id, Stream: "c12", Types: typs, Plugins: pl, GoderiveArgs: PrefixArgs("derive", ov),
+			Variants: []Variant{{false, false}}, KeepDerived: true, NoModel: true, Group: group, Rename: rename,
+			Files: []FileSpec{{Name: "a.go", Calls: calls(pre)}}, Extra: extra}
+	}
+	var out []*Case
+	callsA := func(pre map[string]string) []CallSpec {
+		return []CallSpec{Call("equal", pre["equal"], 0), Call("compare", pre["compare"]+"Outer", 0)}
+	}
+	out = append(out, mk("nA", "nA-default", "default", nil, callsA, nil))
+	out = append(out, mk("nA", "nA-renamed", "plugin-nested", map[string]string{"equal": "eq", "compare": "eq_"}, callsA, nil))
+	callsB := func(pre map[string]string) []CallSpec {
+		return []CallSpec{Call("compare", pre["compare"]+"Outer", 0)}
+	}
+	extraB := map[string]string{
+		"order/v2/v2.go": "// Package order: its import path ends in v2, its name is order.\npackage order\n\ntype Direction int\n\nconst Asc Direction = 1\n",
+		"p/use.go":       "package p\n\nimport \"t/order/v2\"\n\nvar Dir = order.Asc\n",
+	}
+	out = append(out, mk("nB", "nB-default", "default", nil, callsB, extraB))
+	out = append(out, mk("nB", "nB-renamed", "plugin-weird", map[string]string{"compare": "order"}, callsB, extraB))
 	return out
 }
